@@ -275,8 +275,18 @@ func isNilConst(v ssa.Value) bool {
 	return ok && c.Value == nil
 }
 
+var errorIface = types.Universe.Lookup("error").Type().Underlying().(*types.Interface)
+
+// isErrorType: error, or a named interface type that embeds it
+// (gnet.DisconnectReason).
 func isErrorType(t types.Type) bool {
-	return types.Identical(t, types.Universe.Lookup("error").Type())
+	if types.Identical(t, types.Universe.Lookup("error").Type()) {
+		return true
+	}
+	if it, ok := t.Underlying().(*types.Interface); ok && it.NumMethods() > 0 {
+		return types.Implements(t, errorIface)
+	}
+	return false
 }
 
 func (ff *FuncFacts) callTerm(v ssa.Value) string {
@@ -620,6 +630,18 @@ func (ff *FuncFacts) classify(v ssa.Value, b *ssa.BasicBlock, ret *ssa.Return, d
 	}
 	desc := ff.Term(v)
 	if isErrorType(v.Type()) {
+		// strip interface-to-interface conversions (gnet.DisconnectReason -> error)
+		for {
+			if ci, ok := v.(*ssa.ChangeInterface); ok {
+				v = ci.X
+				continue
+			}
+			if ct, ok := v.(*ssa.ChangeType); ok && isErrorType(ct.X.Type()) {
+				v = ct.X
+				continue
+			}
+			break
+		}
 		switch x := v.(type) {
 		case *ssa.Const:
 			if x.Value == nil {
